@@ -167,3 +167,44 @@ func (x reference) failingEmailKinds() []string {
 	}
 	return out
 }
+
+// howAdmitted describes, for violation signatures, how the e-mail satisfies the admitting rule kind.
+func howAdmitted(kind string, r oracle.Rules, email string) string {
+	var how string
+	switch kind {
+	case "address":
+		how = "case-variant"
+		if loneStar(r.Addresses) {
+			how = "lone-star"
+		} else {
+			for _, a := range r.Addresses {
+				if a == email {
+					how = "exact"
+				}
+			}
+		}
+	case "domain":
+		how = "case-variant"
+		if loneStar(r.Domains) {
+			how = "lone-star"
+		} else {
+			dom := email[strings.LastIndex(email, "@")+1:]
+			for _, d := range r.Domains {
+				if d == dom {
+					how = "exact"
+				}
+			}
+		}
+	default:
+		return ""
+	}
+	out := " how=" + how
+	switch {
+	case how == "lone-star":
+	case strings.Count(email, "@") > 1:
+		out += " shape=several-at"
+	case strings.HasPrefix(email, "@"):
+		out += " shape=empty-local-part"
+	}
+	return out
+}
